@@ -18,7 +18,7 @@ import (
 )
 
 func init() {
-	treeRules := []func(*World, *Report){rulePairedEffects, ruleLinkSymmetry, ruleEndsRecomputed, ruleDetachAliasing, ruleDetachBeforeAttach, ruleRawSetterCallers, ruleNilReference}
+	treeRules := []func(*World, *Report){rulePairedEffects, ruleDetachClearsLinks, ruleLinkSymmetry, ruleEndsRecomputed, ruleDetachAliasing, ruleDetachBeforeAttach, ruleRawSetterCallers, ruleNilReference, ruleForeignGuard}
 	register(&Property{
 		ID:      "C05",
 		Level:   "other",
@@ -565,6 +565,57 @@ func rulePairedEffects(w *World, r *Report) {
 	r.Expect("mutator paths enumerated", nPaths, 15)
 }
 
+// ---- C13-X detached nodes carry no links ----------------------------------------------------------------------
+
+// ruleDetachClearsLinks: AppendChild/InsertBefore rely on a detached node having nil sibling links (AppendChild on a
+// non-empty parent never touches the insertee's next link). So on every path on which a mutator clears a node's
+// parent, that node's next and previous links must be nil when the path ends (written nil on the path, or known nil
+// from a branch fact).
+func ruleDetachClearsLinks(w *World, r *Report) {
+	r.Rule("C13-X", "On every path of every mutator of ast.BaseNode (CFG cut at loop headers) on which x.SetParent(nil) is executed, x's next and previous sibling links are nil at the end of the path: a detached node carries no stale links (AppendChild does not clear the insertee's next link, so a stale link splices the old siblings into the new parent).")
+	tm := w.treeModel()
+	if tm == nil {
+		r.Unknown("ast.BaseNode", "", "tree model not recognised")
+		return
+	}
+	n := 0
+	for _, fn := range w.treeMutators(tm) {
+		key := w.FnKey(fn)
+		segs, headers := segmentsOf(fn)
+		bad := map[string]bool{}
+		detaches := 0
+		for _, seg := range segs {
+			complete := enumSegmentPathsWithBackedge(seg, headers, func(p Path, facts map[string]bool, toHeader bool) {
+				ps := w.runTreePath(tm, fn, p, facts)
+				for _, s := range ps.detach {
+					detaches++
+					for _, role := range []string{"next", "prev"} {
+						v := ps.read(s, role)
+						if !ps.isNil(v) {
+							k := fmt.Sprintf("%s: %s link of the detached node %s", key, role, shortSym(s))
+							if !bad[k] {
+								bad[k] = true
+								last := p.Blocks[len(p.Blocks)-1]
+								r.Bad(k, w.InstrPos(last.Instrs[len(last.Instrs)-1]), fmt.Sprintf("a path clears the parent of %s but leaves its %s link (%s)", s, role, v))
+							}
+						}
+					}
+				}
+			})
+			if !complete {
+				r.Unknown(key+": path bound", w.FnPos(fn), "too many paths")
+			}
+		}
+		if detaches > 0 {
+			n++
+			if len(bad) == 0 {
+				r.OK(key, w.FnPos(fn), "every detached node has both sibling links cleared on the same path")
+			}
+		}
+	}
+	r.Expect("mutators that detach a node directly", n, 1)
+}
+
 // ---- C13-L ---------------------------------------------------------------------------------------------
 
 func ruleLinkSymmetry(w *World, r *Report) {
@@ -760,6 +811,76 @@ func ruleRawSetterCallers(w *World, r *Report) {
 	if outside == 0 {
 		r.OK("raw setters confined to package ast", "", fmt.Sprintf("%d call sites, all in package ast", n))
 	}
+}
+
+// ---- C13-F sibling links of an argument are consulted only when it is our child ------------------------------
+
+// ruleForeignGuard: in a method of BaseNode, the sibling links of a node handed in as an argument say where to
+// insert or what to re-link only if that node is a child of the receiver. Reading them for a foreign node positions
+// the operation in somebody else's child list ("inserting relative to a foreign reference appends").
+func ruleForeignGuard(w *World, r *Report) {
+	r.Rule("C13-F", "In every method of ast.BaseNode, a call of NextSibling()/PreviousSibling() on a Node-typed parameter other than self is dominated by the fact param.Parent() == self (true edge of ==, false edge of !=): the sibling links of a foreign node are never used to position an operation on the receiver's child list.")
+	tm := w.treeModel()
+	if tm == nil {
+		r.Unknown("ast.BaseNode", "", "tree model not recognised")
+		return
+	}
+	n := 0
+	for i := 0; i < tm.base.NumMethods(); i++ {
+		m := w.Prog.FuncValue(tm.base.Method(i))
+		if m == nil || m.Blocks == nil || len(m.Params) < 3 {
+			continue
+		}
+		var self ssa.Value
+		for _, p := range m.Params[1:] {
+			if p.Name() == "self" && types.Identical(p.Type(), tm.nodeT) {
+				self = p
+			}
+		}
+		if self == nil {
+			continue
+		}
+		for _, p := range m.Params[1:] {
+			if ssa.Value(p) == self || !types.Identical(p.Type(), tm.nodeT) {
+				continue
+			}
+			for _, use := range referrersOf(p) {
+				c, ok := use.(*ssa.Call)
+				if !ok || !c.Common().IsInvoke() || c.Common().Value != ssa.Value(p) {
+					continue
+				}
+				name := c.Common().Method.Name()
+				if name != "NextSibling" && name != "PreviousSibling" {
+					continue
+				}
+				n++
+				key := fmt.Sprintf("%s: %s.%s()", w.FnKey(m), p.Name(), name)
+				guarded := false
+				for _, f := range dominatingConds(c.Block()) {
+					for _, a := range condAtoms(f.If.Cond, f.Truth) {
+						bo, ok := a.V.(*ssa.BinOp)
+						if !ok || (bo.Op != token.EQL && bo.Op != token.NEQ) {
+							continue
+						}
+						isParentOf := func(v ssa.Value) bool {
+							pc, ok := v.(*ssa.Call)
+							return ok && pc.Common().IsInvoke() && pc.Common().Method.Name() == "Parent" && pc.Common().Value == ssa.Value(p)
+						}
+						pair := (isParentOf(bo.X) && stripMakeIface(bo.Y) == self) || (isParentOf(bo.Y) && stripMakeIface(bo.X) == self)
+						if pair && (bo.Op == token.EQL) == a.Truth {
+							guarded = true
+						}
+					}
+				}
+				if guarded {
+					r.OK(key, w.InstrPos(c), "dominated by "+p.Name()+".Parent() == self")
+				} else {
+					r.Bad(key, w.InstrPos(c), fmt.Sprintf("the %s link of the argument %s is read although %s may belong to another parent (no dominating %s.Parent() == self)", name, p.Name(), p.Name(), p.Name()))
+				}
+			}
+		}
+	}
+	r.Expect("sibling-link reads on argument nodes", n, 3)
 }
 
 // ---- C13-N -----------------------------------------------------------------------------------------------
@@ -1015,6 +1136,13 @@ func ruleWalkProtocol(w *World, r *Report) {
 			// the path's end
 			ret, isRet := lastInstr.(*ssa.Return)
 			if !isRet {
+				// K5 at a cut: a path that goes (back) to the child loop's header must have examined
+				// the error and the status of its last call; the next iteration is "the next event".
+				if toHeader && pendingUntested != nil {
+					if _, tested := failedOn(pendingUntested, facts); !tested {
+						flag("K5", "the result of a walker/recursive call is not tested (error and Stop) before the loop continues", pendingUntested)
+					}
+				}
 				if toHeader {
 					// reaching the child loop from the entry requires status != SkipChildren (K3)
 					if !seg.Loop && len(events) > 0 {
@@ -1269,7 +1397,7 @@ func ruleEndsRecomputed(w *World, r *Report) {
 			r.Unknown(key, w.FnPos(fn), "siblings are re-linked inside a loop but lastChild is not recomputed by a final walk from firstChild along NextSibling(): nothing here justifies that LastChild() is the end of the chain after the call (incremental tail tracking is not decided by this rule and needs review)")
 		}
 	}
-	r.Expect("mutators that re-link inside a loop", n, 2)
+	r.Expect("mutators that re-link inside a loop", n, 1)
 }
 
 // ---- C05-V: levels of headings and emphasis are bounded where the node is created -------------------------------
